@@ -20,7 +20,7 @@ func init() {
 			"(P01-norecord) a record is returned only when that list is empty, and both engines return records only when no block had errors; (P01-placeholder) in an open range any placeholder character other than '?' is rejected on every path; (P01-guards) the headline guard for left-over text rejects on any remaining character; (P01-kinds) every error kind defined for the parser is raised somewhere in it; " +
 			"(P01-lex) the date, time and duration patterns are language-equivalent to the specification's lexical shapes and include all spec-valid literals, their constructors fail on every path where the pattern does not match, and the summary-line patterns equal 'starts with tab or Zs' / 'only tab or Zs'. " +
 			"Not covered: block splitting, indentation uniformity, section order and the values extracted (12-hour conversion, shifts, 24:00 folding, file order of entries) — these need an oracle evaluated on inputs.",
-		rules: []ruleFn{ruleP01ErrChecked, ruleP01ErrFlow, ruleP01NoRecord, ruleP01Placeholder, ruleP01Guards, ruleP01Kinds, ruleP01Lex, ruleP01GroupGuards, ruleP01SummaryEmpty, ruleP01SummaryValidated, ruleP01Delims, ruleP08LoopExit},
+		rules:   []ruleFn{ruleP01ErrChecked, ruleP01ErrFlow, ruleP01NoRecord, ruleP01Placeholder, ruleP01Guards, ruleP01Kinds, ruleP01Lex, ruleP01GroupGuards, ruleP01SummaryEmpty, ruleP01SummaryValidated, ruleP01Delims, ruleP08LoopExit},
 		trusted: []string{"reference languages transcribed from Specification.md: date \\d{4}[-/]\\d{2}[-/]\\d{2}; time <?\\d{1,2}:\\d{2}(am|pm)?>?; duration [-+]?(\\d+h)?(\\d+m)?; blank = tab or Unicode Zs", "Go's regexp package implements the regexp/syntax semantics the comparison uses"},
 	})
 	register(&propSpec{
@@ -29,7 +29,7 @@ func init() {
 		explain: "Decided on source constants and the SSA program: (P16-lex = P01-lex) the literal shapes accepted for dates, times and durations are exactly the specification's; (P16-order) a range is rejected exactly when its end is not after-or-equal its start, and time comparison reads both midnight offsets (day shift included) with >= / ==; " +
 			"(P16-closed) date, time, duration, range and open-range values are only constructed inside their validating constructors, after the validity test; (P16-offsets = P02-range) midnight offsets are 60h+m-1440 / 60h+m / 60h+m+1440 by shift and a range lasts end minus start; (P16-ampm) the 12-hour tables of reading and printing are mutually inverse on the hour classes {0, 1-11, 12, 13-23}; (P16-plus) Time.Plus builds its result from the shifted offset's quotient and remainder by 60. " +
 			"Not covered: Gregorian validity (civil), ToString formats in general, exhaustive value round trips.",
-		rules: []ruleFn{ruleP01Lex, ruleP01GroupGuards, ruleP16DateStrict, ruleP16DateSeparators, ruleP16DurationParts, ruleP16Order, ruleP16Closed, ruleP02Range, ruleP16AmPm, ruleP16Plus, ruleP16Fold},
+		rules:   []ruleFn{ruleP01Lex, ruleP01GroupGuards, ruleP16DateStrict, ruleP16DateSeparators, ruleP16DurationParts, ruleP16Order, ruleP16Closed, ruleP02Range, ruleP16AmPm, ruleP16Plus, ruleP16Fold},
 		trusted: []string{"cloud.google.com/go/civil validates dates and times"},
 	})
 }
@@ -382,10 +382,10 @@ func ruleP01Kinds(p *Prog, r *Report) {
 func ruleP01Lex(p *Prog, r *Report) {
 	const rule = "P01-lex"
 	type pat struct {
-		global, fn  string
-		shape       string // equivalence reference
-		valid       string // inclusion reference (spec-valid literals)
-		matchLen    int    // len(match) expected on success (0: nil test)
+		global, fn string
+		shape      string // equivalence reference
+		valid      string // inclusion reference (spec-valid literals)
+		matchLen   int    // len(match) expected on success (0: nil test)
 	}
 	for _, pt := range []pat{
 		{"datePattern", "NewDateFromString", `\d{4}[-/]\d{2}[-/]\d{2}`, `\d{4}-\d{2}-\d{2}|\d{4}/\d{2}/\d{2}`, 4},
